@@ -5,12 +5,17 @@
     device performed while active (LedgerTotals, HistoryInOrder), TotalsAreSums, LatestConsistent, FreshAfterEnter.
 (R) spec -> code: TrackerGen.tla emits histories of tracker-context operations (enter / exit / exit by exception / active on,
     off / reset, nested and persistent contexts) and direct device entry-point calls with batches of circuits (shots,
-    non-commuting measurement groups, parameter broadcasting, gate counts), each with the totals / history the spec expects
-    at the end; the driver replays them on real devices and compares.
+    non-commuting measurement groups, parameter broadcasting, gate counts, measurement processes, number of trainable
+    parameters -- including batches whose circuits have the same gates but different measurements and derivative batches
+    with circuits that have no trainable parameter), each with the totals / history the spec expects at the end; the
+    driver replays them on real devices and compares.
 (T) code -> spec: a wrapper around the device's entry points describes every batch it is handed (the independent count)
     and snapshots tracker.totals / history / latest after every call; Trace_Tracker.tla validates every step of (a) the
     replayed histories and (b) seeded random programs of QNode calls, gradients (parameter-shift, adjoint, device VJP,
-    backprop), qp.execute batches with random shots and direct derivative calls inside random tracker contexts."""
+    backprop), QNodes split by split_non_commuting, qp.execute batches with random shots, differentiated qp.execute
+    batches of mixed trainability (device derivatives, device VJP, parameter-shift) and direct derivative calls inside
+    random tracker contexts.  A recorded resources entry is compared as [number of gates] + sorted measurement-process
+    codes, so the entry of a circuit must describe that circuit and not a neighbour with the same gates."""
 import contextlib
 import json
 import os
@@ -70,28 +75,54 @@ def n_groups(mps):
     return len(groups)
 
 
+MP_KIND = {"ExpectationMP": 1, "VarianceMP": 2, "ProbabilityMP": 3, "SampleMP": 4, "CountsMP": 5}
+MP_WORD = {"expval": 1, "var": 2, "probs": 3, "sample": 4, "counts": 5}
+SHAPE = {"PauliX": 1, "PauliY": 2, "PauliZ": 3, "Prod": 4}
+
+
+def mcodes(mps):
+    """measurement processes -> sorted codes kind*8 + shape, read off the measurement objects of the tape the device was
+    handed (the independent description; Tracker.tla documents the code)"""
+    out = []
+    for mp in mps:
+        kind = MP_KIND.get(type(mp).__name__)
+        shape = 0 if mp.obs is None else SHAPE.get(mp.obs.name)
+        if kind is None or shape is None:
+            raise lib.MachineryError(f"driver produced a measurement outside its menu: {mp}")
+        out.append(kind * 8 + shape)
+    return sorted(out)
+
+
 def describe(tape):
     return {"s": int(tape.shots.total_shots) if tape.shots else 0, "g": n_groups(tape.measurements),
-            "b": int(tape.batch_size) if tape.batch_size else 0, "n": len(tape.operations)}
+            "b": int(tape.batch_size) if tape.batch_size else 0, "n": len(tape.operations),
+            "t": len(tape.trainable_params), "m": mcodes(tape.measurements)}
 
 
-def _gates(r):
+def _res(r):
+    """a recorded SpecsResources -> [number of gates] + sorted measurement codes (read from what the tracker stored)"""
     if r is None:
-        return -1
+        return [-1]
     t = getattr(r, "total_quantum_operations", None)
     if t is None:
         t = sum(getattr(r, "counts", getattr(r, "gate_types", {})).values())
-    return int(t)
+    codes = []
+    for name, cnt in dict(getattr(r, "measurement_processes", {}) or {}).items():
+        word, _, arg = str(name).partition("(")
+        arg = arg[:-1] if arg.endswith(")") else arg
+        shape = SHAPE.get(arg.partition("(")[0], 0 if "wires" in arg else 7)      # 7: something outside the menus
+        codes += [MP_WORD.get(word, 0) * 8 + shape] * int(cnt)
+    return [int(t)] + sorted(codes)
 
 
 def snap(tr):
     tot = {k: int(tr.totals.get(k, 0)) for k in NUMKEYS}
     hist = {k: [int(v) for v in tr.history.get(k, [])] for k in NUMKEYS}
-    hist["resources"] = [_gates(r) for r in tr.history.get("resources", [])]
+    hist["resources"] = [_res(r) for r in tr.history.get("resources", [])]
     hist["results"] = [1] * len(tr.history.get("results", []))
-    latest = {k: int(tr.latest[k]) if k in tr.latest else -1 for k in NUMKEYS}
-    latest["resources"] = _gates(tr.latest["resources"]) if "resources" in tr.latest else -1
-    latest["results"] = 1 if "results" in tr.latest else -1
+    latest = {k: [int(tr.latest[k])] if k in tr.latest else [] for k in NUMKEYS}          # [] absent, [value] present
+    latest["resources"] = [_res(tr.latest["resources"])] if "resources" in tr.latest else []
+    latest["results"] = [1] if "results" in tr.latest else []
     extra = sorted((set(tr.totals) | set(tr.history) | set(tr.latest)) - set(ALLKEYS))
     return {"active": bool(tr.active), "tot": tot, "hist": hist, "latest": latest, "extra": len(extra)}
 
@@ -140,6 +171,20 @@ class Probe:
 
 
 # ----------------------------------------------------------------------------- circuits from descriptors
+MENUS = [lambda: [qp.expval(qp.Z(0))],                                          # 0   one group
+         lambda: [qp.expval(qp.Z(0)), qp.expval(qp.Z(1))],                      # 1
+         lambda: [qp.expval(qp.Z(0) @ qp.Z(1)), qp.expval(qp.Z(0))],            # 2
+         lambda: [qp.probs(wires=[0, 1])],                                      # 3
+         lambda: [qp.expval(qp.Z(1)), qp.var(qp.Z(0))],                         # 4
+         lambda: [qp.sample()],                                                 # 5   finite shots only
+         lambda: [qp.counts()],                                                 # 6   finite shots only
+         lambda: [qp.expval(qp.X(0)), qp.expval(qp.Z(0))],                      # 7   two groups
+         lambda: [qp.expval(qp.Y(1)), qp.expval(qp.Z(0) @ qp.Z(1))],            # 8
+         lambda: [qp.expval(qp.X(0)), qp.expval(qp.Y(0)), qp.expval(qp.Z(0))]]  # 9   three groups
+MENU_OF = {(n_groups(f()), tuple(mcodes(f()))): f for f in MENUS}              # (g, m) of a TLC circuit -> its measurements
+assert len(MENU_OF) == len(MENUS)
+
+
 def build_tape(c, variant=0):
     ops = []
     for i in range(c["n"]):
@@ -147,7 +192,9 @@ def build_tape(c, variant=0):
         if i == 0 and c["b"]:
             th = np.linspace(0.1, 0.7, c["b"])
         ops.append([qp.RX, qp.RY][i % 2](th, wires=i % 2))
-    if c["g"] == 1:
+    if "m" in c:                    # a circuit chosen by TLC: gates from n, measurements from (g, m), trainability from t
+        ms = MENU_OF[(c["g"], tuple(c["m"]))]()
+    elif c["g"] == 1:
         menus = [[qp.expval(qp.Z(0))], [qp.expval(qp.Z(0)), qp.expval(qp.Z(1))], [qp.expval(qp.Z(0) @ qp.Z(1)), qp.expval(qp.Z(0))]]
         if c.get("any_measurement"):
             menus += [[qp.probs(wires=[0, 1])], [qp.expval(qp.Z(1)), qp.var(qp.Z(0))]] + ([[qp.sample()], [qp.counts()]] if c["s"] else [])
@@ -159,7 +206,7 @@ def build_tape(c, variant=0):
     shots = None
     if c["s"]:
         shots = c["s"] if variant % 2 == 0 or c["s"] < 4 else qp.measurements.Shots((c["s"] // 2, c["s"] - c["s"] // 2))
-    return qp.tape.QuantumScript(ops, ms, shots=shots)
+    return qp.tape.QuantumScript(ops, ms, shots=shots, trainable_params=list(range(c["t"])) if "t" in c else None)
 
 
 def direct_call(dev, kind, batch, variant, gm, plain=False):
@@ -170,7 +217,7 @@ def direct_call(dev, kind, batch, variant, gm, plain=False):
     single = not isinstance(arg, tuple)
     if execute:
         return dev.execute(arg) if variant % 2 else dev.execute(arg, ExecutionConfig())
-    tang = tuple(tuple(1.0 / (j + 1) for j in range(c["n"])) for c in batch)
+    tang = tuple(tuple(1.0 / (j + 1) for j in range(len(t.trainable_params))) for t in tapes)
     cot = tuple(1.0 if len(t.measurements) == 1 else tuple(0.5 for _ in t.measurements) for t in tapes)
     extra = {"compute_derivatives": (), "execute_and_compute_derivatives": (),
              "compute_jvp": (tang[0] if single else tang,), "execute_and_compute_jvp": (tang[0] if single else tang,),
